@@ -122,6 +122,7 @@ class Entry:
         self.problems = []
         self.convert = None      # (fn, bb, term)
         self.preprocessors = []  # [(callee path, guards shown, fn, bb)]
+        self.links = []          # [(forwarding fn, bb of the forwarding call)] from the trait method down to the converting function
         if self.trait_fn is not None:
             self._analyse()
 
@@ -167,6 +168,7 @@ class Entry:
                     self.problems.append('%s never converts the map (convert_ref not reached; %d forwarding calls)'
                                          % (fn.path, len(args)))
                 return
+            self.links.append((fn, args[0][1]))
             nxt = F.fn(callee_path(args[0][2]))
             if nxt is None:
                 self.problems.append('%s forwards the map to unresolved %s' % (fn.path, callee_path(args[0][2])))
@@ -190,9 +192,20 @@ class Entry:
             self.problems.append('%s converts to %s instead of GameMode::%s' % (fn.path, prov.show(m), want))
         g = prov.strip(self.mods_arg, names=prov.TRANSPARENT_NAMES - {'get_mods'})
         ok = False
+        owner = fn
+        # the converting helper may receive the mods as a parameter: follow it up the forwarding chain
+        for cfn, cbb in reversed(self.links):
+            pp = as_param_path(g, through_calls=False)
+            if pp is None or pp[1] != ():
+                break
+            cargs = prov.prov_of(cfn).call_args(cbb)
+            if pp[0] > len(cargs):
+                break
+            g = prov.strip(cargs[pp[0] - 1], names=prov.TRANSPARENT_NAMES - {'get_mods'})
+            owner = cfn
         if g[0] == 'call' and prov.callee(g) == GET_MODS:
             src = as_param_path(g[2][0])
-            dp = self.difficulty_param(fn)
+            dp = self.difficulty_param(owner)
             if src is not None and dp is not None and src == (dp, ()):
                 ok = True
         if not ok:
@@ -280,7 +293,7 @@ def always_converted(F, fn, k, depth=0, seen=None):
         return [fn.path + ' (no caller)']
     for cfn, cbb, ct in sites:
         a = prov.prov_of(cfn).call_args(cbb)[k - 1]
-        if any(x[0] == 'call' and x[1].get('name') == 'convert_ref' for x in prov.walk(a, limit=400)):
+        if from_convert_ref(F, a):
             continue
         pp = as_param_path(a)
         if pp is not None and pp[1] == () and pp[0] <= len(cfn.j.get('inputs', [])) and cfn.j['inputs'][pp[0] - 1].get('to_adt') == BEATMAP:
@@ -306,3 +319,18 @@ def difficulty_getters(F, roots):
             if c.startswith('any::difficulty::Difficulty::get_'):
                 out.setdefault(c.split('::')[-1], []).append(p)
     return out
+
+
+def from_convert_ref(F, v, limit=400, depth=2):
+    """the tree derives from Beatmap::convert_ref(..): directly, or through a local helper whose return value does
+    (`convert::convert_with_mods(map, mods)?`)"""
+    for x in prov.walk(v, limit=limit):
+        if x[0] != 'call':
+            continue
+        if x[1].get('name') == 'convert_ref':
+            return True
+        if depth > 0 and x[1].get('local') and 'Beatmap' in str((F.fn(x[1].get('path') or '').j.get('output') if F.fn(x[1].get('path') or '') else '') or ''):
+            h = F.fn(x[1].get('path') or '')
+            if h is not None and from_convert_ref(F, prov.prov_of(h).return_value(), limit, depth - 1):
+                return True
+    return False
